@@ -47,17 +47,95 @@ CLOCK = _Clock()
 class Res:
     """What the wrapped function returns: a fresh object per invocation."""
 
-    __slots__ = ("id", "key")
+    __slots__ = ("id", "key", "fn")
 
-    def __init__(self, i, key):
+    def __init__(self, i, key, fn=0):
         self.id = i
         self.key = key
+        self.fn = fn
+
+
+class FalsyRes(Res):
+    """A fresh object per invocation that is FALSE in a boolean context and has length 0 (like an empty list / frame):
+    a wrapper that tests the cached result with `if result:` / `or` / `len()` instead of asking whether an entry is held
+    treats a held entry as a miss."""
+
+    __slots__ = ()
+
+    def __bool__(self):
+        return False
+
+    def __len__(self):
+        return 0
+
+
+# results that carry no identity: None and the falsy constants.  `kind_of` recognises exactly these objects.
+CONST_RESULTS = {"none": None, "zero": 0, "empty": "", "false": False, "etuple": ()}
+RESULT_KINDS = ("obj", "falsy") + tuple(CONST_RESULTS)
+
+
+def kind_of(r):
+    for k, v in CONST_RESULTS.items():
+        if type(r) is type(v) and r == v:
+            return k
+    return None
+
+
+class Obj:
+    """An argument object in the style of orso's DataFrame: equality is identity (no __eq__), the hash is chosen by the
+    case - so two different objects may have EQUAL hashes (DataFrame.__hash__ is computed from the rows only)."""
+
+    __slots__ = ("i", "h")
+
+    def __init__(self, i, h):
+        self.i, self.h = i, h
+
+    def __hash__(self):
+        return self.h
+
+    def __repr__(self):
+        return "Obj(%d)" % self.i
+
+
+class EqV:
+    """An argument object with VALUE equality: a fresh object per call, == to every other EqV with the same payload."""
+
+    __slots__ = ("v",)
+
+    def __init__(self, v):
+        self.v = v
+
+    def __eq__(self, other):
+        return type(other) is EqV and other.v == self.v
+
+    def __hash__(self):
+        return hash(("EqV", self.v))
+
+    def __repr__(self):
+        return "EqV(%r)" % (self.v,)
+
+
+class Inst:
+    """base of the classes whose METHODS are decorated in mode "apply": `self` is compared by identity"""
+
+    idx = None
+
+
+OBJ_POOL = {}
 
 
 def pyval(v):
-    """JSON form of an argument value -> a FRESH Python value ({"t": [...]} is a tuple, a list is a list)."""
+    """JSON form of an argument value -> a FRESH Python value ({"t": [...]} is a tuple, a list is a list,
+    {"obj": i, "hash": h} the case's persistent identity-compared object number i, {"eqv": x} a fresh value-compared object)."""
     if isinstance(v, dict) and list(v) == ["t"]:
         return tuple(pyval(x) for x in v["t"])
+    if isinstance(v, dict) and "obj" in v:
+        o = OBJ_POOL.get((v["obj"], v.get("hash", 0)))
+        if o is None:
+            o = OBJ_POOL[(v["obj"], v.get("hash", 0))] = Obj(v["obj"], v.get("hash", 0))
+        return o
+    if isinstance(v, dict) and list(v) == ["eqv"]:
+        return EqV(v["eqv"])
     if isinstance(v, list):
         return [pyval(x) for x in v]
     if isinstance(v, int) and not isinstance(v, bool) and abs(v) > 256:
@@ -75,6 +153,12 @@ def norm(v):
         return {"t": [norm(x) for x in v]}
     if isinstance(v, list):
         return [norm(x) for x in v]
+    if isinstance(v, Obj):
+        return {"obj": v.i}
+    if isinstance(v, EqV):
+        return {"eqv": v.v}
+    if isinstance(v, Inst):
+        return {"inst": v.idx}
     return v
 
 
@@ -100,20 +184,54 @@ class Patched:
         self.T.time = self.old
 
 
+def make_function(case, log, fn=0):
+    """The wrapped function: logs (key, time), advances the clock by the key's cost, returns what `rets` says for the key
+    (default: a fresh truthy object per invocation)."""
+    costs = {json.dumps(k): d for k, d in case.get("costs", [])}
+    rets = {json.dumps(k): r for k, r in case.get("rets", [])}
+
+    def F(*args, **kwargs):
+        key = canon_key(args, kwargs.items())
+        kind = rets.get(json.dumps(key), case.get("ret", "obj"))
+        i = len(log)
+        log.append((key, CLOCK.now))
+        CLOCK.now += costs.get(json.dumps(key), 0)
+        if kind == "obj":
+            return Res(i, key, fn)
+        if kind == "falsy":
+            return FalsyRes(i, key, fn)
+        return CONST_RESULTS[kind]
+
+    F.__name__ = "F%d" % fn
+    return F
+
+
+def ret_kind(case, key):
+    kind = case.get("ret", "obj")
+    for k, r in case.get("rets", []):
+        if k == key:
+            kind = r  # the last entry for a key counts, as in make_function
+    return kind
+
+
+def observe(w, args, kwargs):
+    try:
+        r = w(*args, **kwargs)
+    except Exception as e:
+        return ["err", type(e).__name__], None
+    if isinstance(r, Res):
+        return ["ok", r.id], r
+    k = kind_of(r)
+    if k is not None:
+        return ["val", k], r
+    return ["other", repr(r)[:60]], r
+
+
 class Wrapped:
     def __init__(self, T, case):
         CLOCK.now = T0
         self.log = []
-        costs = {json.dumps(k): d for k, d in case.get("costs", [])}
-        log = self.log
-
-        def F(*args, **kwargs):
-            key = canon_key(args, kwargs.items())
-            r = Res(len(log), key)
-            log.append((key, CLOCK.now))
-            CLOCK.now += costs.get(json.dumps(key), 0)
-            return r
-
+        F = make_function(case, self.log)
         kw = {}
         if case.get("valid") is not None:
             kw["valid_for_seconds"] = case["valid"]
@@ -125,13 +243,7 @@ class Wrapped:
     def call(self, op):
         args = tuple(pyval(a) for a in op[1])
         kwargs = dict((k, pyval(v)) for k, v in op[2])
-        try:
-            r = self.w(*args, **kwargs)
-        except Exception as e:
-            return ["err", type(e).__name__]
-        if isinstance(r, Res):
-            return ["ok", r.id]
-        return ["other", repr(r)[:60]]
+        return observe(self.w, args, kwargs)[0]
 
 
 def fresh(valid, now, t):
@@ -184,29 +296,48 @@ def mirror_seq(case):
 
 
 def oracle_seq(case, evs, log):
-    """The property on the implementation's own outputs. Returns clause or None."""
+    """The property on the implementation's own outputs. Returns clause or None.
+
+    A result that carries no identity (None, 0, '', False, ()) is judged by value: it must be what the wrapped function
+    returns for THESE arguments; which invocation it came from is then read off the specification (a miss returns its own
+    invocation, a hit the held entry's)."""
     valid, single = case.get("valid"), case["cache"] == "single"
     held = []
+    ninv = 0
     for e in evs:
         if e["out"][0] == "err":
             return "call raised %s" % e["out"][1]
-        if e["out"][0] != "ok" or not (0 <= e["out"][1] < len(log)):
+        if e["invoked"] not in (0, 1):
+            return "wrapped function invoked more than once"
+        held = [h for h in held if fresh(valid, e["now"], log[h[1]][1])]
+        if e["out"][0] == "val":
+            want = ret_kind(case, e["key"])
+            if e["out"][1] != want:
+                if any(ret_kind(case, k) == e["out"][1] for k, _ in log):
+                    return "result computed for different arguments"
+                return "returned an object the wrapped function did not produce"
+            mine = [h for h in held if h[0] == e["key"]]
+            ret = ninv if e["invoked"] else (mine[0][1] if mine else None)
+            if ret is None:
+                return "wrapped function not invoked although no unexpired entry is held"
+        elif e["out"][0] != "ok" or not (0 <= e["out"][1] < len(log)):
             return "returned an object the wrapped function did not produce"
-        ret = e["out"][1]
+        else:
+            ret = e["out"][1]
         if log[ret][0] != e["key"]:
             return "result computed for different arguments"
         if not fresh(valid, e["now"], log[ret][1]):
             return "result older than the validity period"
-        if e["invoked"] not in (0, 1):
-            return "wrapped function invoked more than once"
-        held = [h for h in held if fresh(valid, e["now"], log[h[1]][1])]
         expect_hit = any(h[0] == e["key"] for h in held)
         if expect_hit and e["invoked"]:
             return "wrapped function invoked although an unexpired entry for equal arguments is held"
         if not expect_hit and not e["invoked"]:
             return "wrapped function not invoked although no unexpired entry is held"
-        if e["invoked"] and ret != len(log) - 1 and log[ret][1] != e["now"]:
+        if e["invoked"] and ret != ninv:
             return "miss returned an old result"
+        if not e["invoked"] and not any(h[0] == e["key"] and h[1] == ret for h in held):
+            return "hit returned a value that is not the held entry's"
+        ninv += e["invoked"]
         if single:
             held = [[e["key"], ret]]
         else:
@@ -226,6 +357,8 @@ def valid_seq(c):
         if c.get("mode") != "seq" or c["cache"] not in ("single", "lru") or not c["ops"]:
             return False
         if c["cache"] == "lru" and not (isinstance(c.get("max_size"), int) and c["max_size"] >= 1):
+            return False
+        if c.get("ret", "obj") not in RESULT_KINDS or any(len(r) != 2 or r[1] not in RESULT_KINDS for r in c.get("rets", [])):
             return False
         for op in c["ops"]:
             if op[0] == "adv":
@@ -249,24 +382,50 @@ def _norm(clause):
     return None if clause is None else "".join(ch for ch in clause if not ch.isdigit())
 
 
+def impl_events(case, evs):
+    return [[e["out"][1] if e["out"][0] == "ok" else e["out"], bool(e["invoked"]), e["now"]] for e in evs]
+
+
+def model_events_as_observed(case, impl, m_evs, m_log):
+    """The model returns invocation indices; where the implementation's result carries no identity (a constant), the
+    model's index is turned into the constant the wrapped function returns for the key of that invocation."""
+    out = []
+    for i, me in enumerate(m_evs):
+        if i < len(impl) and isinstance(impl[i][0], list) and impl[i][0][0] == "val" and 0 <= me[0] < len(m_log):
+            out.append([["val", ret_kind(case, m_log[me[0]][0])], me[1], me[2]])
+        else:
+            out.append(me)
+    return out
+
+
+def generated_vs_model(ctx, m_evs, g_evs):
+    """The driver also runs the wrapper bodies as GENERATED from the working tree (Gen.CacheFns).  They are proved equal
+    to the hand-written machines (C19.generated_*_eq_model); when the source changed that theorem no longer checks and the
+    two may differ - recorded in the input distribution, decided by the oracle and the proof audit, never an error here."""
+    same = [[e[0], e[2]] for e in m_evs] == g_evs
+    ctx.hit("seq:generated-wrapper-" + ("agrees-with-model" if same else "DIFFERS-from-model"))
+
+
 def evaluate_seq(ctx, cases):
     mouts = ctx.model.batch([model_line_seq(c) for c in cases])
     for c, mo in zip(cases, mouts):
         if not mo.startswith("ok "):
             raise InfraError("model rejected case %r: %r" % (c, mo))
-        m_evs, m_log, s_evs = wire.dec_all(mo[3:])
+        m_evs, m_log, s_evs, g_evs = wire.dec_all(mo[3:])
         mir_evs, mir_log = mirror_seq(c)
         if m_evs != mir_evs or m_log != mir_log or s_evs != mir_evs:
             raise InfraError("Lean model and the Python mirror of the specification differ on %r: %r / %r / %r" % (c, m_evs, s_evs, mir_evs))
+        generated_vs_model(ctx, m_evs, g_evs)
         evs, log = run_seq_impl(c)
         ncalls = sum(1 for op in c["ops"] if op[0] == "call")
         ctx.case(c, ncalls >= 2)
         ctx.hit("seq:" + c["cache"])
         ctx.hit("seq:len:%d" % min(len(c["ops"]), 9))
+        ctx.hit("seq:results:" + (c.get("ret", "obj") if not c.get("rets") else "mixed"))
         for e in evs:
             ctx.hit("seq:" + ("miss" if e["invoked"] else "hit"))
         clause = oracle_seq(c, evs, log)
-        impl = [[e["out"][1] if e["out"][0] == "ok" else e["out"], bool(e["invoked"]), e["now"]] for e in evs]
+        impl = impl_events(c, evs)
         if clause is not None:
             def still(c2):
                 if not valid_seq(c2):
@@ -277,40 +436,456 @@ def evaluate_seq(ctx, cases):
             c_min = shrink(c, still) if not ctx.replaying else c
             e2, l2 = run_seq_impl(c_min)
             ctx.fail(c_min, oracle_seq(c_min, e2, l2) or clause, impl={"events": e2, "log": l2}, model=m_evs if c_min is c else None)
-        elif impl != m_evs or log != m_log:
+        elif impl != model_events_as_observed(c, impl, m_evs, m_log) or log != m_log:
             ctx.disagree(c, {"events": impl, "log": log}, {"events": m_evs, "log": m_log})
+
+
+# --------------------------------------------------------------------------- the ways a decorator is applied
+#
+# mode "apply": several wrappers made from one decorator in the ways Python allows -
+#   direct   w_j = D(F_j, **cfg)                      bare     w_j = D(F_j)  (defaults: no expiry, max_size 5)
+#   factory  w_j = D(**cfg)(F_j), one D(**cfg) each   shared   d = D(**cfg); w_j = d(F_j)  (ONE configured decorator)
+#   twice    d = D(**cfg); w_0 = d(F_0); w_1 = d(F_0) (the same function wrapped twice)
+#   method   class C: m_j = d(F_j) - called through instances, so `self` is the first positional argument
+# Every wrapper is one cache: its calls (with all clock advances) are judged by the sequential oracle against the
+# invocations made on its behalf, and compared with the Lean machine run on that wrapper's own history.
+
+STYLES = ("direct", "bare", "factory", "shared", "twice", "method")
+DEFAULT_MAX_SIZE = 5  # tools.py: `max_size: int = 5` (read from the signature at run time, see apply_defaults)
+
+
+def apply_defaults(T):
+    import inspect
+
+    sig = inspect.signature(T.lru_cache_with_expiry)
+    m = sig.parameters.get("max_size")
+    return m.default if m is not None and isinstance(m.default, int) else DEFAULT_MAX_SIZE
+
+
+class Applied:
+    def __init__(self, T, case):
+        CLOCK.now = T0
+        D = T.single_item_cache if case["cache"] == "single" else T.lru_cache_with_expiry
+        style, n = case["style"], case.get("nfun", 2)
+        cfg = {}
+        if style != "bare":
+            if case.get("valid") is not None:
+                cfg["valid_for_seconds"] = case["valid"]
+            if case["cache"] == "lru":
+                cfg["max_size"] = case["max_size"]
+        self.flog = [[] for _ in range(n)]          # per function: (key, time)
+        self.fns = [make_function(case, self.flog[j], fn=j) for j in range(n)]
+        self.fn_of = list(range(n))
+        if style == "direct":
+            self.ws = [D(f, **cfg) for f in self.fns]
+        elif style == "bare":
+            self.ws = [D(f) for f in self.fns]
+        elif style == "factory":
+            self.ws = [D(**cfg)(f) for f in self.fns]
+        elif style == "shared":
+            d = D(**cfg)
+            self.ws = [d(f) for f in self.fns]
+        elif style == "twice":
+            d = D(**cfg)
+            self.ws = [d(self.fns[0]) for _ in range(n)]
+            self.fn_of = [0] * n
+        elif style == "method":
+            d = D(**cfg)
+            ns = {"m%d" % j: d(f) for j, f in enumerate(self.fns)}
+            cls = type("C", (Inst,), ns)
+            self.insts = [cls(), cls()]
+            self.insts[0].idx, self.insts[1].idx = 0, 1
+            self.ws = [getattr(cls, "m%d" % j) for j in range(n)]
+        else:
+            raise InfraError("unknown style %r" % (style,))
+        self.style = style
+        self.own = [[] for _ in self.ws]             # per wrapper: (fn, index in that function's log) of the invocations made for it
+
+
+def apply_config(case, T=None):
+    """(valid, max_size) the wrappers of the case are configured with"""
+    if case["style"] == "bare":
+        return None, (apply_defaults(T) if T is not None else DEFAULT_MAX_SIZE)
+    return case.get("valid"), case.get("max_size", 1)
+
+
+def run_apply_impl(case):
+    """per wrapper: (projected sequential case, events, own log); plus the first cross-wrapper clause seen"""
+    with Patched() as T:
+        a = Applied(T, case)
+        valid, max_size = apply_config(case, T)
+        nw = len(a.ws)
+        evs = [[] for _ in range(nw)]
+        hist = [[] for _ in range(nw)]
+        cross = None
+        for op in case["ops"]:
+            if op[0] == "adv":
+                CLOCK.now += op[1]
+                for h in hist:
+                    h.append(["adv", op[1]])
+                continue
+            j = op[1] % nw
+            args = [pyval(x) for x in op[2]]
+            kwargs = dict((k, pyval(v)) for k, v in op[3])
+            if a.style == "method":
+                inst = op[4] if len(op) > 4 else 0
+                recv = a.insts[inst % 2]
+                call = lambda: observe(getattr(recv, "m%d" % j), tuple(args), kwargs)  # noqa: E731
+                key = canon_key([{"inst": inst % 2}] + [norm(x) for x in args], list(kwargs.items()))
+                hist[j].append(["call", [{"inst": inst % 2}] + op[2], op[3]])
+            else:
+                call = lambda: observe(a.ws[j], tuple(args), kwargs)  # noqa: E731
+                key = canon_key(args, list(kwargs.items()))
+                hist[j].append(["call", op[2], op[3]])
+            before = [len(l) for l in a.flog]
+            now = CLOCK.now
+            out, r = call()
+            made = [(f, i) for f in range(len(a.flog)) for i in range(before[f], len(a.flog[f]))]
+            a.own[j].extend(made)
+            if out[0] == "ok":
+                # translate the result's identity (function, index in its log) into the index in THIS wrapper's own log
+                ident = (r.fn, r.id)
+                if r.fn != a.fn_of[j]:
+                    cross = cross or "returned a value produced by a different wrapped function"
+                    out = ["foreign", list(ident)]
+                elif ident in a.own[j]:
+                    out = ["ok", a.own[j].index(ident)]
+                else:
+                    cross = cross or "returned a value held by another wrapper's cache"
+                    out = ["foreign", list(ident)]
+            if any(f != a.fn_of[j] for f, _ in made):
+                cross = cross or "a different wrapped function was invoked"
+            evs[j].append({"key": key, "now": now, "out": out, "invoked": len(made)})
+        res = []
+        for j in range(nw):
+            own_log = [[a.flog[f][i][0], a.flog[f][i][1]] for f, i in a.own[j]]
+            sub = {"mode": "seq", "cache": case["cache"], "valid": valid, "max_size": max_size, "ops": hist[j]}
+            for k in ("ret", "rets"):
+                if k in case:
+                    sub[k] = case[k]
+            while sub["ops"] and sub["ops"][-1][0] == "adv":
+                sub["ops"] = sub["ops"][:-1]
+            res.append((sub, evs[j], own_log))
+        return res, cross
+
+
+def oracle_apply(case, res, cross):
+    if cross is not None:
+        return cross
+    for sub, evs, log in res:
+        if not evs:
+            continue
+        if any(e["out"][0] == "foreign" for e in evs):
+            return "returned a value held by another wrapper's cache"
+        c = oracle_seq(sub, evs, log)
+        if c is not None:
+            return c
+    return None
+
+
+def valid_apply(c):
+    try:
+        if c.get("mode") != "apply" or c["cache"] not in ("single", "lru") or c["style"] not in STYLES or not c["ops"]:
+            return False
+        if c["cache"] == "lru" and c["style"] != "bare" and not (isinstance(c.get("max_size"), int) and c["max_size"] >= 1):
+            return False
+        if c.get("ret", "obj") not in RESULT_KINDS or c.get("nfun", 2) not in (1, 2, 3):
+            return False
+        for op in c["ops"]:
+            if op[0] == "adv":
+                if not (isinstance(op[1], int) and op[1] >= 0 and len(op) == 2):
+                    return False
+            elif op[0] == "call":
+                if len(op) not in (4, 5) or not isinstance(op[1], int) or op[1] < 0 or not isinstance(op[2], list) or not isinstance(op[3], list):
+                    return False
+                if any(not (isinstance(q, list) and len(q) == 2 and isinstance(q[0], str) and q[0]) for q in op[3]):
+                    return False
+                if len({q[0] for q in op[3]}) != len(op[3]) or (len(op) == 5 and op[4] not in (0, 1)):
+                    return False
+            else:
+                return False
+        return True
+    except Exception:
+        return False
+
+
+def evaluate_apply(ctx, cases):
+    runs = []
+    lines = []
+    for c in cases:
+        res, cross = run_apply_impl(c)
+        runs.append((res, cross))
+        for sub, evs, _ in res:
+            if evs:
+                lines.append(model_line_seq(sub))
+    mouts = iter(ctx.model.batch(lines))
+    for c, (res, cross) in zip(cases, runs):
+        ncalls = sum(1 for op in c["ops"] if op[0] == "call")
+        ctx.case(c, ncalls >= 2 and len({op[1] for op in c["ops"] if op[0] == "call"}) >= 2)
+        ctx.hit("apply:%s:%s" % (c["cache"], c["style"]))
+        clause = oracle_apply(c, res, cross)
+        differ = None
+        for sub, evs, log in res:
+            if not evs:
+                continue
+            mo = next(mouts)
+            if not mo.startswith("ok "):
+                raise InfraError("model rejected case %r: %r" % (sub, mo))
+            m_evs, m_log, s_evs, g_evs = wire.dec_all(mo[3:])
+            mir_evs, mir_log = mirror_seq(sub)
+            if m_evs != mir_evs or m_log != mir_log or s_evs != mir_evs:
+                raise InfraError("Lean model and the Python mirror of the specification differ on %r" % (sub,))
+            generated_vs_model(ctx, m_evs, g_evs)
+            impl = impl_events(sub, evs)
+            if differ is None and (impl != model_events_as_observed(sub, impl, m_evs, m_log) or log != m_log):
+                differ = ({"events": impl, "log": log}, {"events": m_evs, "log": m_log})
+        if clause is not None:
+            def still(c2):
+                if not valid_apply(c2):
+                    return False
+                r2, x2 = run_apply_impl(c2)
+                return _norm(oracle_apply(c2, r2, x2)) == _norm(clause)
+
+            c_min = shrink(c, still) if not ctx.replaying else c
+            r2, x2 = run_apply_impl(c_min)
+            ctx.fail(c_min, oracle_apply(c_min, r2, x2) or clause,
+                     impl=[{"wrapper": j, "events": e, "invocations_made_for_it": l} for j, (_, e, l) in enumerate(r2)])
+        elif differ is not None:
+            ctx.disagree(c, differ[0], differ[1], what="one wrapper's own history differs from the model run on that history")
 
 
 # --------------------------------------------------------------------------- DataFrame.column_names
 
 SCHEMAS = [["a", "b"], ["c"], ["a", "b"], ["x", "y", "z"]]
 
+# Frame specifications for mode "frames".  An int is an index into SCHEMAS (no rows; the original cases).  A dict is
+#   {"kind": "list" | "tuple" | "relation" | "dicts", "labels": [...], "rows": [[...], ...]}
+# with labels in JSON: str / int / float / bool, {"dec": "1.00"} a Decimal.  `schema=` labels need not be strings:
+# column_names renders them with str(), so labels that are == but render differently (1 / 1.0 / True / Decimal('1.00'),
+# 0 / -0.0 / False) belong to DIFFERENT frames with different names; frames with EQUAL ROWS have equal hashes
+# (DataFrame.__hash__ is computed from the rows only) and different names.
+def _L(kind, labels, rows=()):
+    return {"kind": kind, "labels": list(labels), "rows": [list(r) for r in rows]}
 
-def run_frames_impl(case):
+
+SPEC_FAMILIES = {
+    # == but not str-equal labels, as lists and as tuples (list == list and tuple == tuple, never list == tuple)
+    "eq_one": [_L("list", [1, 2], [[10, 20]]), _L("list", [1.0, 2.0], [[10, 20]]), _L("list", [True, 2], [[10, 20]]),
+               _L("list", [{"dec": "1.00"}, 2], [[10, 20]])],
+    "eq_zero": [_L("list", [0, 5], [[1, 2]]), _L("list", [-0.0, 5], [[1, 2]]), _L("list", [False, 5], [[1, 2]]),
+                _L("tuple", [0, 5], [[1, 2]])],
+    "eq_tuple": [_L("tuple", [1, 2]), _L("tuple", [1.0, 2.0]), _L("tuple", [True, 2.0]), _L("list", [1, 2])],
+    # equal rows (equal hashes), different names
+    "same_rows": [_L("list", ["id", "name"], [[1, "x"], [2, "y"]]), _L("list", ["key", "value"], [[1, "x"], [2, "y"]]),
+                  _L("tuple", ["id", "name"], [[1, "x"], [2, "y"]]), _L("list", ["name", "id"], [[1, "x"], [2, "y"]])],
+    "no_rows": [_L("list", ["p", "q", "r"]), _L("list", ["s", "t", "u"]), _L("list", ["p"]), _L("tuple", ["p", "q", "r"])],
+    "dicts": [_L("dicts", ["id", "height_m"], [[1, 2], [3, 4]]), _L("dicts", ["key", "height_ft"], [[1, 2], [3, 4]]),
+              _L("dicts", ["height_m", "id"], [[1, 2], [3, 4]]), _L("dicts", ["a"], [[None]])],
+    "relation": [_L("relation", ["a", "b"], [[1, 2]]), _L("relation", ["b", "a"], [[1, 2]]), _L("relation", ["a"], [[1]]),
+                 _L("list", ["a", "b"], [[1, 2]])],
+    "equal_labels": [_L("list", ["a", "b"], [[1, 2]]), _L("list", ["a", "b"], [[3, 4]]), _L("list", ["a", "b"]), _L("tuple", ["a", "b"], [[1, 2]])],
+}
+READS = ("names", "count", "shape", "str")
+
+
+def _label(v):
+    if isinstance(v, dict) and list(v) == ["dec"]:
+        import decimal
+
+        return decimal.Decimal(v["dec"])
+    return v
+
+
+def build_frame(spec):
     from orso import DataFrame
 
-    frames = {}
-    outs = []
-    for op in case["ops"]:
-        k = op[0]
-        if k == "new":
-            frames[op[1]] = DataFrame(rows=[], schema=list(SCHEMAS[op[2] % len(SCHEMAS)]))
-            outs.append(["unit"])
-        elif k == "drop":
-            frames.pop(op[1], None)
-            gc.collect()
-            outs.append(["unit"])
-        elif k in ("names", "count"):
-            df = frames.get(op[1])
-            if df is None:
-                outs.append(["unit"])
-                continue
-            try:
-                v = df.column_names if k == "names" else df.columncount
-                outs.append(["ok", list(v) if k == "names" else v, list(df._schema)])
-            except Exception as e:
-                outs.append(["err", type(e).__name__])
-    return outs
+    if isinstance(spec, int):
+        return DataFrame(rows=[], schema=list(SCHEMAS[spec % len(SCHEMAS)]))
+    labels = [_label(v) for v in spec["labels"]]
+    rows = [tuple(r) for r in spec.get("rows", [])]
+    kind = spec["kind"]
+    if kind == "dicts":
+        return DataFrame([dict(zip(labels, r)) for r in rows])
+    if kind == "relation":
+        from orso.schema import FlatColumn, RelationSchema
+        from orso.types import OrsoTypes
+
+        sch = RelationSchema(name="t", columns=[FlatColumn(name=str(l), type=OrsoTypes.INTEGER) for l in labels])
+        return DataFrame(rows=rows, schema=sch)
+    return DataFrame(rows=rows, schema=list(labels) if kind == "list" else tuple(labels))
+
+
+def expected_names(spec):
+    """what the property promises: the frame's OWN column names - its labels rendered with str()"""
+    if isinstance(spec, int):
+        return [str(x) for x in SCHEMAS[spec % len(SCHEMAS)]]
+    return [str(_label(v)) for v in spec["labels"]]
+
+
+def _strict(v):
+    """a value up to type and rendering (1 / 1.0 / True differ)"""
+    if isinstance(v, (tuple, list)):
+        return [type(v).__name__] + [_strict(x) for x in v]
+    return [type(v).__name__, repr(v)]
+
+
+def cached_use_sites(T):
+    """Every function in the orso package that is a wrapper made by one of the two cache decorators (recognised by its
+    code object, however the decorator was spelled): (description, owner, attribute, how it is bound, wrapper)."""
+    import importlib
+    import pkgutil
+
+    import orso
+
+    codes = set(wrapper_codes(T).values())
+    mods = [orso]
+    for m in pkgutil.walk_packages(orso.__path__, "orso."):
+        if ".tests" in m.name or m.name.endswith(".compiled"):
+            continue
+        try:
+            mods.append(importlib.import_module(m.name))
+        except Exception:
+            continue
+    sites, seen = [], set()
+
+    def is_wrapper(f):
+        return callable(f) and getattr(f, "__code__", None) in codes
+
+    for mod in mods:
+        for name, obj in list(vars(mod).items()):
+            if is_wrapper(obj):
+                if (id(mod), name) not in seen:
+                    seen.add((id(mod), name))
+                    sites.append(("%s.%s" % (mod.__name__, name), mod, name, "function", obj))
+            elif isinstance(obj, type) and obj.__module__ == mod.__name__:
+                for attr, v in list(vars(obj).items()):
+                    kind, f = "function", v
+                    if isinstance(v, property):
+                        kind, f = "property", v.fget
+                    elif isinstance(v, (staticmethod, classmethod)):
+                        kind, f = type(v).__name__, v.__func__
+                    if is_wrapper(f) and (id(obj), attr) not in seen:
+                        seen.add((id(obj), attr))
+                        sites.append(("%s.%s.%s" % (mod.__name__, obj.__name__, attr), obj, attr, kind, f))
+    return sites
+
+
+_SITES = None
+
+
+class Interposed:
+    """While active, every call that goes through a cached use site is judged: the value it returns must be, up to type
+    and rendering, what the wrapped computation gives for THESE arguments now (the frames of a case are never changed after
+    construction, so the computation is a function of its arguments; a site whose computation is not repeatable is not judged)."""
+
+    def __init__(self, T):
+        global _SITES
+        if _SITES is None:
+            _SITES = cached_use_sites(T)
+        self.sites = _SITES
+        self.saved = []
+        self.bad = []
+        self.calls = {}
+
+    def _proxy(self, desc, w):
+        import functools
+
+        inner = getattr(w, "__wrapped__", None)
+
+        @functools.wraps(w)
+        def proxy(*a, **k):
+            r = w(*a, **k)
+            self.calls[desc] = self.calls.get(desc, 0) + 1
+            if inner is not None:
+                try:
+                    f1, f2 = inner(*a, **k), inner(*a, **k)
+                except Exception:
+                    return r
+                if _strict(f1) == _strict(f2) and _strict(r) != _strict(f1):
+                    self.bad.append([desc, repr(r)[:80], repr(f1)[:80]])
+            return r
+
+        return proxy
+
+    def __enter__(self):
+        for desc, owner, attr, kind, w in self.sites:
+            p = self._proxy(desc, w)
+            new = {"function": p, "property": None, "staticmethod": staticmethod(p), "classmethod": classmethod(p)}[kind]
+            old = vars(owner)[attr]
+            if kind == "property":
+                new = property(p, old.fset, old.fdel, old.__doc__)
+            self.saved.append((owner, attr, old))
+            setattr(owner, attr, new)
+        return self
+
+    def __exit__(self, *a):
+        for owner, attr, old in reversed(self.saved):
+            setattr(owner, attr, old)
+        self.saved = []
+
+
+def _read(df, k):
+    if k == "names":
+        return list(df.column_names)
+    if k == "count":
+        return df.columncount
+    if k == "shape":
+        return list(df.shape)
+    if k == "str":
+        return str(df).splitlines()[:4]
+    raise InfraError("unknown read %r" % (k,))
+
+
+def run_frames_impl(case, interpose=True):
+    import orso.tools as T
+
+    if True:
+        frames, specs = {}, {}
+        outs = []
+        # The caches behind the use sites live as long as the process: start every case from the same state by reading a few
+        # sentinel frames nobody else has (so a replay of the case alone, in a fresh process, behaves the same).
+        try:
+            for i in range(6):
+                sentinel = build_frame({"kind": "list", "labels": ["__sentinel_%d__" % i], "rows": []})
+                sentinel.column_names, sentinel.columncount
+        except Exception:
+            pass
+        ip = Interposed(T) if interpose else None
+        if ip is not None:
+            ip.__enter__()
+        try:
+            for op in case["ops"]:
+                k = op[0]
+                if k == "new":
+                    try:
+                        frames[op[1]] = build_frame(op[2])
+                        specs[op[1]] = op[2]
+                        outs.append(["unit"])
+                    except Exception as e:
+                        frames.pop(op[1], None)
+                        outs.append(["unbuildable", type(e).__name__])
+                elif k == "drop":
+                    frames.pop(op[1], None)
+                    gc.collect()
+                    outs.append(["unit"])
+                elif k in READS:
+                    df = frames.get(op[1])
+                    if df is None:
+                        outs.append(["unit"])
+                        continue
+                    n0 = len(ip.bad) if ip is not None else 0
+                    try:
+                        v = _read(df, k)
+                        out = ["ok", v, expected_names(specs[op[1]]), len(df._rows) if isinstance(df._rows, list) else None]
+                    except Exception as e:
+                        out = ["err", type(e).__name__]
+                    if ip is not None and len(ip.bad) > n0:
+                        out = out + [{"sites": ip.bad[n0:]}]
+                    outs.append(out)
+        finally:
+            if ip is not None:
+                ip.__exit__()
+        return outs, (dict(ip.calls) if ip is not None else {})
 
 
 def oracle_frames(case, outs):
@@ -318,33 +893,112 @@ def oracle_frames(case, outs):
         if out[0] == "err":
             return "%s raised %s" % (op[0], out[1])
         if out[0] == "ok":
-            want = out[2] if op[0] == "names" else len(out[2])
-            if out[1] != want:
-                return "frame was served another frame's cached column %s" % op[0]
+            names = out[2]
+            if op[0] == "names" and out[1] != names:
+                return "frame was served another frame's cached column names"
+            if op[0] == "count" and out[1] != len(names):
+                return "frame was served another frame's cached column count"
+            if op[0] == "shape" and out[1][1] != len(names):
+                return "frame was served another frame's cached column count"
+            if isinstance(out[-1], dict) and out[-1].get("sites"):
+                return "a cached use site returned a value that differs from what the wrapped computation gives for these arguments"
     return None
 
 
 def valid_frames(c):
     try:
         return c.get("mode") == "frames" and all(
-            op[0] in ("new", "drop", "names", "count") and isinstance(op[1], int) and (op[0] != "new" or isinstance(op[2], int)) for op in c["ops"]
+            op[0] in ("new", "drop") + READS and isinstance(op[1], int)
+            and (op[0] != "new" or isinstance(op[2], int) or (isinstance(op[2], dict) and op[2].get("kind") in ("list", "tuple", "relation", "dicts")
+                                                                  and isinstance(op[2].get("labels"), list) and op[2]["labels"]
+                                                                  and len({str(_label(v)) for v in op[2]["labels"]}) == len(op[2]["labels"])
+                                                                  and all(str(_label(v)) for v in op[2]["labels"])
+                                                                  and (op[2]["kind"] not in ("dicts", "relation") or all(isinstance(v, str) for v in op[2]["labels"]))
+                                                                  and (op[2]["kind"] != "dicts" or op[2].get("rows"))
+                                                                  and all(isinstance(r, list) and len(r) == len(op[2]["labels"]) for r in op[2].get("rows", []))))
+            for op in c["ops"]
         ) and bool(c["ops"])
     except Exception:
         return False
 
 
+def use_site_notes(ctx, info):
+    """evidence: the use sites found in the sources (extractor) and the ones found at run time; a difference is a note"""
+    import orso.tools as T
+
+    global _SITES
+    if _SITES is None:
+        _SITES = cached_use_sites(T)
+    runtime = sorted(d for d, *_ in _SITES)
+    parsed = info.get("c19.use_sites") or []
+    ctx.note("cached_use_sites_runtime", runtime)
+    ctx.note("cached_use_sites_parsed", parsed)
+    ctx.note("dataframe_defines_eq", info.get("c19.dataframe_defines_eq"))  # False: frames are cache keys by identity
+    want = sorted("%s.%s" % (p["module"], p["qualname"]) for p in parsed if not p.get("nested"))
+    if want != runtime:
+        ctx.note("cached_use_sites_differ", {"parsed_only": sorted(set(want) - set(runtime)), "runtime_only": sorted(set(runtime) - set(want))})
+    pinned = ["orso.dataframe.DataFrame.column_names", "orso.dataframe.DataFrame.columncount"]
+    if runtime != pinned:
+        ctx.note("cached_use_sites_changed", "the check was written for %s; every site found is still judged when a frame operation goes through it" % pinned)
+
+
 def evaluate_frames(ctx, cases):
     for c in cases:
-        outs = run_frames_impl(c)
+        outs, calls = run_frames_impl(c)
         ctx.case(c, sum(1 for o in outs if o[0] == "ok") >= 2)
         ctx.hit("frames")
+        for op, o in zip(c["ops"], outs):
+            if o[0] == "ok":
+                ctx.hit("frames:read:" + op[0])
+            elif o[0] == "unbuildable":
+                ctx.hit("frames:unbuildable")
+        for d, n in calls.items():
+            ctx.hit("site-calls:" + d, n)
         clause = oracle_frames(c, outs)
         if clause is not None:
             def still(c2):
-                return valid_frames(c2) and _norm(oracle_frames(c2, run_frames_impl(c2))) == _norm(clause)
+                return valid_frames(c2) and _norm(oracle_frames(c2, run_frames_impl(c2)[0])) == _norm(clause)
 
-            c_min = shrink(c, still) if not ctx.replaying else c
-            ctx.fail(c_min, clause, impl=run_frames_impl(c_min))
+            if ctx.replaying:
+                ctx.fail(c, clause, impl=outs)
+                continue
+            if any(v.get("sig") == clause for v in ctx.violations):
+                ctx.hit("violation-dup:" + clause)  # already reported with a confirmed replay: do not pay for another shrink
+                continue
+            # The state behind a use site outlives a case (module-level caches).  A replay runs the case alone in a fresh
+            # process, so the reported case must fail THERE: shrink in this process, confirm in a fresh interpreter, and
+            # fall back to (a bounded shrink of) the unshrunk case when the small one only fails after earlier cases.
+            c_min = shrink(c, still)
+            detail = None
+            if not frames_fails_fresh(c_min, clause):
+                if frames_fails_fresh(c, clause):
+                    c_min = shrink(c, lambda c2: valid_frames(c2) and frames_fails_fresh(c2, clause), budget=40)
+                else:
+                    detail = "fails only after the earlier cases of this run (state outside the case); shown as observed in this process"
+            ctx.fail(c_min, clause, impl=run_frames_impl(c_min)[0], detail=detail)
+
+
+def frames_fails_fresh(case, clause):
+    """does the frames case, run alone in a fresh interpreter, fail with the same clause?"""
+    import subprocess
+    import sys
+
+    code = ("import sys, json\n"
+            "sys.path.insert(0, %r); sys.path.insert(0, %r)\n"
+            "from harness import ext, core\n"
+            "try:\n    ext.preload(core.REPO)\nexcept Exception:\n    pass\n"
+            "from harness.props import c19\n"
+            "c = core.unjson(json.loads(sys.stdin.read()))\n"
+            "print('RESULT ' + json.dumps(c19.oracle_frames(c, c19.run_frames_impl(c)[0])))\n") % (core.REPO, core.VERIF)
+    try:
+        p = subprocess.run([sys.executable, "-c", code], input=json.dumps(core._jsonable(case)), capture_output=True, text=True, timeout=60,
+                           env=dict(os.environ, ORSO_REPO=core.REPO))
+        for line in p.stdout.splitlines():
+            if line.startswith("RESULT "):
+                return _norm(json.loads(line[7:])) == _norm(clause)
+    except Exception:
+        pass
+    return False
 
 
 # --------------------------------------------------------------------------- concurrent cases
@@ -653,7 +1307,21 @@ FAMILIES = {
     # equal but not identical / of different type: 1 == 1.0 == True must share an entry, 2 must not
     "equal": [P(1), P(1.0), P(True)],
     "equal_kw": [["call", [], [["x", 1]]], ["call", [], [["x", True]]], ["call", [2], [["x", 1.0]]]],
+    # argument OBJECTS: compared by identity with colliding hashes (orso's DataFrame: no __eq__, __hash__ from the rows only) ...
+    "objs": [P({"obj": 0, "hash": 7}), P({"obj": 1, "hash": 7}), ["call", [{"obj": 0, "hash": 7}], [["x", {"obj": 1, "hash": 7}]]]],
+    # ... and compared by value: a fresh object per call, == to the earlier ones with the same payload
+    "eqv": [P({"eqv": 1}), P({"eqv": 2}), ["call", [], [["x", {"eqv": 1}]]]],
+    # zeros: 0 == -0.0 == False share an entry (they are equal), 0.5 and '' do not
+    "zero_eq": [P(0), P(-0.0), P(0.5)],
+    "zero_kw": [["call", [], [["x", 0]]], ["call", [], [["x", False]]], ["call", [], [["x", ""]]]],
+    # non-ASCII text as a positional value, as a keyword value and as a keyword NAME
+    "unicode": [P("\u00e9"), ["call", ["e\u0301"], [["k", "\u00e9"]]], ["call", [], [["\u043a\u043b\u044e\u0447", "\u00e9"]]]],
+    # numeric limits: equal-but-not-identical big ints (re-created per call), 2**63 vs 2**63 - 1, and their float neighbour
+    "limits": [P(2**63), P(2**63 - 1), P(-(2**63))],
+    "limits_f": [P(2**53), P(2**53 + 1), P(float(2**53))],
 }
+# five distinct keys: the only histories on which max_size 3 and 4 ever evict
+WIDE = [P(0), P(1), P(2), P(3), P(4)]
 ADV = [["adv", 5], ["adv", VALID], ["adv", VALID + 1]]
 
 
@@ -666,15 +1334,23 @@ def configs(thorough):
     return cs
 
 
-def exhaustive_seq(fam, length, thorough):
+def exhaustive_seq(fam, length, thorough, ret=None):
     alpha = FAMILIES[fam] + ADV
-    for cfg in configs(thorough):
+    cfgs = configs(thorough)
+    if fam == "edge" and not thorough:
+        cfgs = cfgs + [{"cache": "single", "valid": None}, {"cache": "lru", "valid": None, "max_size": 2}]  # the defaults: no expiry
+    for cfg in cfgs:
         if fam == "unhashable" and cfg["cache"] == "lru":
             continue
         for hist in itertools.product(alpha, repeat=length):
             if hist[0][0] == "adv" or hist[-1][0] == "adv":
                 continue  # covered by a shorter history / no observable effect
-            yield dict(cfg, mode="seq", ops=[list(x) for x in hist])
+            c = dict(cfg, mode="seq", ops=[list(x) for x in hist])
+            if isinstance(ret, str):
+                c["ret"] = ret
+            elif ret is not None:
+                c["rets"] = ret
+            yield c
 
 
 def random_seq(rng):
@@ -693,25 +1369,112 @@ def random_seq(rng):
     c["ops"] = ops
     if rng.random() < 0.4:
         c["costs"] = [[op_key(rng.choice(alpha)), rng.choice([1, 5, VALID, VALID + 1])]]
+    r = rng.random()
+    if r < 0.2:
+        c["ret"] = rng.choice(RESULT_KINDS[1:])
+    elif r < 0.4:
+        c["rets"] = [[op_key(a), rng.choice(RESULT_KINDS)] for a in alpha if a[0] == "call" and rng.random() < 0.6]
     return c
 
 
 def random_frames(rng):
     ops = []
     live = set()
+    fam = rng.choice(sorted(SPEC_FAMILIES)) if rng.random() < 0.8 else None
     for _ in range(rng.randint(3, 16)):
         r = rng.random()
         if r < 0.25 or not live:
             i = rng.randrange(4)
-            ops.append(["new", i, rng.randrange(4)])
+            if fam is None:
+                spec = rng.randrange(4)
+            elif rng.random() < 0.85:
+                spec = rng.choice(SPEC_FAMILIES[fam])
+            else:
+                spec = rng.choice(SPEC_FAMILIES[rng.choice(sorted(SPEC_FAMILIES))])
+            ops.append(["new", i, spec])
             live.add(i)
         elif r < 0.35:
             i = rng.choice(sorted(live))
             ops.append(["drop", i])
             live.discard(i)
         else:
-            ops.append([rng.choice(["names", "names", "count"]), rng.choice(sorted(live))])
+            ops.append([rng.choice(["names", "names", "count", "count", "shape", "str"]), rng.choice(sorted(live))])
     return {"mode": "frames", "ops": ops}
+
+
+def exhaustive_frames():
+    """every family of frame specifications: every ordered pair (the frame asked before, this frame), each kind of read,
+    asked twice over (previous, this, previous, this) - the second round meets a cache that holds the OTHER frame's entry"""
+    for fam in sorted(SPEC_FAMILIES):
+        specs = SPEC_FAMILIES[fam]
+        for i, a in enumerate(specs):
+            for j, b in enumerate(specs):
+                if i == j:
+                    continue
+                for rd in (("names", "names"), ("count", "count"), ("names", "count"), ("shape", "names")):
+                    yield {"mode": "frames", "family": fam,
+                           "ops": [["new", 0, a], ["new", 1, b], [rd[0], 0], [rd[0], 1], [rd[1], 0], [rd[1], 1], [rd[0], 0]]}
+        yield {"mode": "frames", "family": fam,
+               "ops": [["new", k, sp] for k, sp in enumerate(specs)] + [[rd, k] for rd in ("names", "count", "str") for k in (0, 1, 2, 3, 2, 1, 0)]}
+
+
+def apply_alphabet(fam, nw, style):
+    calls = FAMILIES[fam]
+    out = []
+    for j in range(nw):
+        for c in calls[:2]:
+            if style == "method":
+                out.append(["call", j, c[1], c[2], 0])
+            else:
+                out.append(["call", j, c[1], c[2]])
+    if style == "method":
+        c = calls[0]
+        out.append(["call", 0, c[1], c[2], 1])
+    return out + [["adv", VALID + 1]]
+
+
+def exhaustive_apply(length, thorough):
+    """every way of applying each decorator x every history of `length` operations over (2 wrappers x 2 argument tuples
+    + one clock advance past the validity period)"""
+    for cache in ("single", "lru"):
+        for style in STYLES:
+            cfgs = [{"max_size": m} for m in ((1, 2) if cache == "lru" else (1,))]
+            for cfg in cfgs:
+                for fam in (("pos", "kw") if not thorough else ("pos", "kw", "mixed", "hc_pos_a", "equal")):
+                    alpha = apply_alphabet(fam, 2, style)
+                    for hist in itertools.product(alpha, repeat=length):
+                        if hist[0][0] == "adv" or hist[-1][0] == "adv":
+                            continue
+                        if len({op[1] for op in hist if op[0] == "call"}) < 2 and style != "method":
+                            continue  # one wrapper only: the sequential histories cover it
+                        c = {"mode": "apply", "cache": cache, "style": style, "valid": VALID, "ops": [list(x) for x in hist]}
+                        if cache == "lru":
+                            c["max_size"] = cfg["max_size"]
+                        yield c
+
+
+def random_apply(rng):
+    cache = rng.choice(["single", "lru"])
+    style = rng.choice(STYLES)
+    fam = rng.choice(sorted(f for f in FAMILIES if f != "unhashable" or cache == "single"))
+    nfun = rng.choice([2, 2, 3])
+    c = {"mode": "apply", "cache": cache, "style": style, "valid": rng.choice([VALID, VALID, 3, None]), "nfun": nfun}
+    if cache == "lru":
+        c["max_size"] = rng.randint(1, 3)
+    if rng.random() < 0.3:
+        c["ret"] = rng.choice(RESULT_KINDS)
+    ops = []
+    for _ in range(rng.randint(2, 16)):
+        if rng.random() < 0.2:
+            ops.append(["adv", rng.choice([1, 5, VALID, VALID + 1])])
+        else:
+            k = rng.choice(FAMILIES[fam])
+            op = ["call", rng.randrange(nfun), k[1], k[2]]
+            if style == "method":
+                op.append(rng.randrange(2))
+            ops.append(op)
+    c["ops"] = ops
+    return c
 
 
 def conc_scenarios(thorough):
@@ -756,7 +1519,8 @@ def conc3_scenarios():
 
 def _degraded(ctx):
     d = ctx.notes.get("extraction_degraded") or []
-    return {"single": any(x.startswith("c19.single") for x in d), "lru": any(x.startswith("c19.lru") for x in d)}
+    keys = [x.split(" ")[0] for x in d]
+    return {"single": "c19.single" in keys, "lru": "c19.lru" in keys}
 
 
 def _batched(ctx, gen, fn, size=4000):
@@ -776,7 +1540,7 @@ def _batched(ctx, gen, fn, size=4000):
 def run(ctx):
     thorough = ctx.tier == "thorough"
     if thorough:
-        ctx.budget_s = min(ctx.budget_s, 430)  # leaves room for build, audit and leanchecker inside 10 minutes
+        ctx.budget_s = min(ctx.budget_s, 540)  # the whole run stays under ten minutes with build, audit and leanchecker
     ctx.note("rule", "seq: call/advance histories on both caches, non-trivial = at least two calls; frames: accesses to "
              "DataFrame.column_names/columncount, non-trivial = at least two reads; conc: one complete line-level schedule of N real "
              "threads per case, non-trivial = at least two threads actually interleaved; distinct by canonical JSON of the case")
@@ -792,6 +1556,10 @@ def run(ctx):
     # 1. corpus: the witness of the repaired defect, boundary histories
     corpus_cases(ctx, deg, info)
     # 2. exhaustive sequential histories
+    import time as _time
+
+    phase = {}
+    t_ = _time.time()
     scope = []
     complete = True
     for fam in sorted(FAMILIES):
@@ -799,8 +1567,39 @@ def run(ctx):
         n, ok = _batched(ctx, exhaustive_seq(fam, length, thorough), evaluate_seq)
         scope.append("%s: length %d (%d histories)" % (fam, length, n))
         complete = complete and ok
+    n, ok = _batched(ctx, ({"mode": "seq", "cache": "lru", "valid": VALID, "max_size": m, "ops": [list(x) for x in hist]}
+                           for m in (3, 4) for hist in itertools.product(WIDE, repeat=ctx.scale(5, 6))), evaluate_seq)
+    scope.append("wide (5 keys, max_size 3 and 4, no advance): length %d (%d histories)" % (ctx.scale(5, 6), n))
+    complete = complete and ok
+    # 2b. the same histories with results that are None / falsy / constants without identity (a wrapper must ask whether an
+    # entry is HELD, never whether the cached result is None or true)
+    for fam in ("pos", "kw", "edge"):
+        mixed = [[op_key(FAMILIES[fam][0]), "none"], [op_key(FAMILIES[fam][1]), "zero"]]
+        for ret in ("none", "falsy", mixed) + (("zero", "empty", "false", "etuple") if thorough or fam == "pos" else ()):
+            length = ctx.scale(4 if fam == "pos" else 3, 4)
+            n, ok = _batched(ctx, exhaustive_seq(fam, length, thorough, ret=ret), evaluate_seq)
+            scope.append("%s, results %s: length %d (%d histories)" % (fam, ret if isinstance(ret, str) else "none/zero/object", length, n))
+            complete = complete and ok
     ctx.note("exhaustive_scope_seq", scope)
-    # 3. concurrent: all schedules of two callers
+    phase["seq_exhaustive_s"] = round(_time.time() - t_, 1)
+    # 2c. the ways a decorator is applied: several wrappers, each must have its own entries
+    t_ = _time.time()
+    length = ctx.scale(3, 4)
+    n, ok = _batched(ctx, exhaustive_apply(length, thorough), evaluate_apply, size=1500)
+    ctx.note("exhaustive_scope_apply", "styles %s x both caches x histories of length %d over 2 wrappers x 2 argument tuples + advance: %d cases%s"
+             % ("/".join(STYLES), length, n, "" if ok else " (cut short by the time budget)"))
+    complete = complete and ok
+    phase["apply_exhaustive_s"] = round(_time.time() - t_, 1)
+    # 2d. every cached use site in orso (found by parsing the sources and by scanning the imported package for the wrappers'
+    # code objects), driven through DataFrame's public API
+    t_ = _time.time()
+    use_site_notes(ctx, info)
+    evaluate_frames(ctx, list(exhaustive_frames()))
+    phase["frames_exhaustive_s"] = round(_time.time() - t_, 1)
+    t_ = _time.time()
+    # 3. concurrent: all schedules of two callers (a slice of the budget stays reserved for the random phase)
+    reserve = ctx.scale(5, 75)
+    ctx.budget_s -= reserve
     conc_scope = []
     for base, full in conc_scenarios(thorough):
         k = base["cache"] + ("-frames" if base.get("frames") else "")
@@ -815,11 +1614,17 @@ def run(ctx):
     for base in conc3_scenarios():
         sample_conc(ctx, base, deg[base["cache"]], info, ctx.scale(80, 1500))
     ctx.note("exhaustive_scope_conc", conc_scope)
+    ctx.budget_s += reserve
+    phase["conc_s"] = round(_time.time() - t_, 1)
     ctx.exhaustive = False
     # 4. random
+    t_ = _time.time()
     rng = ctx.rng
-    _batched(ctx, (random_seq(rng) for _ in range(ctx.scale(3000, 60000))), evaluate_seq)
-    evaluate_frames(ctx, [random_frames(rng) for _ in range(ctx.scale(300, 5000))])
+    _batched(ctx, (random_seq(rng) for _ in range(ctx.scale(3000, 60000))), evaluate_seq, size=ctx.scale(4000, 2000))
+    _batched(ctx, (random_apply(rng) for _ in range(ctx.scale(1500, 30000))), evaluate_apply, size=1500)
+    _batched(ctx, (random_frames(rng) for _ in range(ctx.scale(300, 3000))), evaluate_frames, size=100)
+    phase["random_s"] = round(_time.time() - t_, 1)
+    ctx.note("phase_seconds", phase)
 
 
 def corpus_cases(ctx, deg, info):
@@ -851,6 +1656,10 @@ def intensify(ctx):
             return
     rng = ctx.rng
     _batched(ctx, (random_seq(rng) for _ in range(20000)), evaluate_seq)
+    if ctx.violations:
+        return
+    _batched(ctx, (random_apply(rng) for _ in range(10000)), evaluate_apply, size=1500)
+    evaluate_frames(ctx, [random_frames(rng) for _ in range(2000)])
 
 
 def replay(ctx, case):
@@ -861,6 +1670,8 @@ def replay(ctx, case):
         evaluate_seq(ctx, [case])
     elif mode == "frames":
         evaluate_frames(ctx, [case])
+    elif mode == "apply":
+        evaluate_apply(ctx, [case])
     elif mode == "conc":
         evaluate_conc(ctx, [case], deg[case["cache"]], info)
     else:
